@@ -1103,7 +1103,8 @@ impl Formatter {
             Pattern::Binding(name) => self.writer.write(name),
             Pattern::Literal(lit) => self.format_literal(lit),
             Pattern::Constructor(name, patterns) => {
-                self.writer.write(name);
+                // Qualified patterns are stored as "Type::Variant"; the source spelling is `Type.Variant`.
+                self.writer.write(&name.replace("::", "."));
                 if !patterns.is_empty() {
                     self.writer.write("(");
                     for (i, p) in patterns.iter().enumerate() {
